@@ -151,9 +151,10 @@ def gen_case(i, r):
     exits = {}
     for h in hooks:
         if r.random() < 0.35:
-            lst = [0] * r.randint(0, 4) + [r.choice([1, 2, 3, 255])]
+            # (a hook may also die from a signal: no exit code at all, and not a success)
+            lst = [0] * r.randint(0, 4) + [r.choice([1, 2, 3, 255, 'signal'])]
             if r.random() < 0.3:
-                lst += [0] * r.randint(0, 2) + [r.choice([1, 7])]
+                lst += [0] * r.randint(0, 2) + [r.choice([1, 7, 'signal'])]
             exits[h['name']] = lst
     # environment: one variable per non-empty subset of levels
     env = {lvl: {} for lvl in LEVELS}
@@ -399,7 +400,7 @@ def run(tier):
             if cls == 'environment':
                 key = 'environment|%s' % what.split(' hook ')[0]
             chk.violation('C10|%s' % key, what, res, res.get('replay_dir'))
-    chk.rule = ('generated hook sets: 1-8 hooks with 1-4 types each, 0-3 (nested) groups, hooks listed twice, allow_failure x scripted exit codes, '
+    chk.rule = ('generated hook sets: 1-8 hooks with 1-4 types each, 0-3 (nested) groups, hooks listed twice, allow_failure x scripted exit codes and deaths by signal, '
                 'stdin / stdin_str / stdout / stderr templates, rev_labels, {{ env.X }} templates, challenge names in other letter cases, 15 environment variables covering every subset of (daemon, global, certificate, '
                 'identifier); 1-3 identifiers over the three challenge types; first issuance + renewal and the retries the exit codes cause; '
                 'distinct = configurations with matched invocations')
